@@ -9,7 +9,7 @@ use crate::session::{assemble_fresh as assemble, assemble_here, Asm};
 use crate::util;
 use serde_json::{json, Value};
 
-pub const SOURCES: [(&str, &str); 28] = [
+const FIXED_SOURCES: [(&str, &str); 28] = [
     ("validA", "start add r0 r0 #1\nloop br loop\ndata .fill x10\n ld r1 data\n"),
     ("validB-reuses-labels", "data .fill x5\nstart ld r0 data\nloop add r0 r0 #-1\nbrp loop\nhalt\n"),
     ("lexer-failure-after-label", "start add r0 r0 #1\n .bogus\n"),
@@ -43,6 +43,25 @@ pub const SOURCES: [(&str, &str); 28] = [
     ("emission-failure-on-line-2", "add r0 r0 r0\nbr far\n.blkw x200\nfar halt\n"),
 ];
 
+/// The fixed sources plus generated ones: a source with 300 labels (a table that has grown must
+/// be emptied like a small one) and two small sources that mention some of those labels.
+pub fn sources() -> &'static Vec<(&'static str, String)> {
+    use std::sync::OnceLock;
+    static S: OnceLock<Vec<(&'static str, String)>> = OnceLock::new();
+    S.get_or_init(|| {
+        let mut v: Vec<(&'static str, String)> = FIXED_SOURCES.iter().map(|(n, t)| (*n, t.to_string())).collect();
+        let mut many = String::new();
+        for i in 0..300 {
+            many.push_str(&format!("lbl_{i} add r0 r0 #0\n"));
+        }
+        many.push_str("halt\n");
+        v.push(("300-labels", many));
+        v.push(("defines-lbl_3-itself", "br lbl_3\nlbl_3 halt\n".to_string()));
+        v.push(("uses-undefined-lbl_7", "lea r0 lbl_7\nhalt\n".to_string()));
+        v
+    })
+}
+
 fn summarize(a: &Asm) -> String {
     match a {
         Asm::Ok(ok) => format!("ok orig={:?} words={:04x?} breaks={:?}", ok.orig, ok.words, ok.breaks),
@@ -58,7 +77,7 @@ pub fn run_sequence(seq: &[usize]) -> Result<Vec<Asm>, crate::isolate::Stopped> 
             if i > 0 {
                 lace::reset_state();
             }
-            out.push(assemble_here(SOURCES[*s].1));
+            out.push(assemble_here(&sources()[*s].1));
         }
         out
     })
@@ -74,10 +93,10 @@ fn judge(seq: &[usize], baseline: &[Asm]) -> Option<(String, String)> {
             for (i, r) in results.iter().enumerate() {
                 let expect = &baseline[seq[i]];
                 if r != expect {
-                    let pred = if i > 0 { SOURCES[seq[i - 1]].0 } else { "none" };
+                    let pred = if i > 0 { sources()[seq[i - 1]].0 } else { "none" };
                     return Some((
-                        format!("purity/differs/{}/after/{}", SOURCES[seq[i]].0, pred),
-                        format!("element {i} ({}) gave [{}] but a fresh thread gives [{}]", SOURCES[seq[i]].0, summarize(r), summarize(expect)),
+                        format!("purity/differs/{}/after/{}", sources()[seq[i]].0, pred),
+                        format!("element {i} ({}) gave [{}] but a fresh thread gives [{}]", sources()[seq[i]].0, summarize(r), summarize(expect)),
                     ));
                 }
             }
@@ -88,11 +107,12 @@ fn judge(seq: &[usize], baseline: &[Asm]) -> Option<(String, String)> {
 
 pub fn run(ctx: &Ctx) -> i32 {
     let max_len = ctx.tier.pick(4, 5);
-    let k = SOURCES.len();
+    let k = sources().len();
     // Baseline: every source on its own fresh thread, twice (determinism of the oracle itself).
     let mut baseline = Vec::new();
     let mut pre = Acc::new();
-    for (name, src) in SOURCES {
+    for (name, src) in sources().iter() {
+        let src = src.as_str();
         let a = assemble(src, Env::new(false));
         let b = assemble(src, Env::new(false));
         match (a, b) {
@@ -121,7 +141,7 @@ pub fn run(ctx: &Ctx) -> i32 {
         match judge(&seq, &baseline) {
             Some((sig, what)) => {
                 acc.outcome(format!("violation:{sig}"));
-                acc.violation(sig, what, json!({"sequence": seq, "names": seq.iter().map(|s| SOURCES[*s].0).collect::<Vec<_>>(), "sources": seq.iter().map(|s| SOURCES[*s].1).collect::<Vec<_>>()}));
+                acc.violation(sig, what, json!({"sequence": seq, "names": seq.iter().map(|s| sources()[*s].0).collect::<Vec<_>>(), "sources": seq.iter().map(|s| &sources()[*s].1).collect::<Vec<_>>()}));
             }
             None => {
                 let last = &baseline[*seq.last().unwrap()];
@@ -137,7 +157,7 @@ pub fn run(ctx: &Ctx) -> i32 {
                     }
                 }
                 if idx % 397 == 0 {
-                    acc.sample(format!("{idx}"), json!({"sequence": seq.iter().map(|s| SOURCES[*s].0).collect::<Vec<_>>(), "last_result": summarize(last)}));
+                    acc.sample(format!("{idx}"), json!({"sequence": seq.iter().map(|s| sources()[*s].0).collect::<Vec<_>>(), "last_result": summarize(last)}));
                 }
             }
         }
@@ -156,16 +176,16 @@ pub fn run(ctx: &Ctx) -> i32 {
         ctx,
         acc,
         Level { category: "model_checking", bfs: Some((n, n, n, max_len as u64)) },
-        "every sequence of length 1..=max_len over 28 sources (valid ones, and one failing at every error site of the assembler) (valid, failing at each stage, sharing and re-using label names) assembled on one thread with reset_state()+reclaim between elements; each element's result (image, origin, breakpoints, spans, or diagnostic incl. rendering) compared with the same source on a fresh thread; states = sequences (no merging: equality of the merged states is the property itself); distinct_nontrivial = sequences of length >= 2 that agreed",
+        "every sequence of length 1..=max_len over 31 sources (28 fixed ones, a source with 300 labels and two small ones mentioning some of them) (valid ones, and one failing at every error site of the assembler) (valid, failing at each stage, sharing and re-using label names) assembled on one thread with reset_state()+reclaim between elements; each element's result (image, origin, breakpoints, spans, or diagnostic incl. rendering) compared with the same source on a fresh thread; states = sequences (no merging: equality of the merged states is the property itself); distinct_nontrivial = sequences of length >= 2 that agreed",
         true,
         &["ok-after-failure", "failure-after-ok", "some-source-ok", "stage-lex", "stage-parse", "stage-backpatch", "stage-emit"],
         &["a fresh OS thread has the thread-local state of a fresh process", "diagnostic rendering is deterministic for equal (report, source)"],
-        json!({"max_len": max_len, "sources": SOURCES.iter().map(|s| s.0).collect::<Vec<_>>()}),
+        json!({"max_len": max_len, "sources": sources().iter().map(|s| s.0).collect::<Vec<_>>()}),
     )
 }
 
 pub fn replay(_ctx: &Ctx, case: &Value) -> Option<Option<String>> {
     let seq: Vec<usize> = case["sequence"].as_array()?.iter().map(|v| v.as_u64().unwrap() as usize).collect();
-    let baseline: Vec<Asm> = SOURCES.iter().map(|(_, s)| assemble(s, Env::new(false)).unwrap_or(Asm::Err(Default::default()))).collect();
+    let baseline: Vec<Asm> = sources().iter().map(|(_, s)| assemble(s, Env::new(false)).unwrap_or(Asm::Err(Default::default()))).collect();
     Some(judge(&seq, &baseline).map(|(sig, what)| format!("{sig}: {what}")))
 }
